@@ -6,6 +6,7 @@
 package c06
 
 import (
+	"bytes"
 	"context"
 	"encoding/binary"
 	"fmt"
@@ -220,7 +221,26 @@ func httpSeed(r *core.RNG) []byte {
 	return []byte(sb.String())
 }
 
+// splitMark separates parts of a far-side reply that are written with a pause in between.
+const splitMark = "\x00<pause>\x00"
+
 func httpReply(r *core.RNG) []byte {
+	if r.Chance(1, 4) {
+		// a complete answer, then - after a pause - further complete responses nobody asked for
+		one := func() string {
+			st := r.PickStr("200 OK", "404 Not Found", "204 No Content", "302 Found")
+			body := r.PickStr("", "abc", "hello world")
+			if st == "204 No Content" {
+				body = ""
+			}
+			return fmt.Sprintf("HTTP/1.1 %s\r\nContent-Length: %d\r\n%s\r\n%s", st, len(body), r.PickStr("", "Connection: keep-alive\r\n", "Location: http://exact.example/x\r\n"), body)
+		}
+		out := one() + splitMark
+		for k := r.Range(1, 3); k > 0; k-- {
+			out += one()
+		}
+		return []byte(out)
+	}
 	st := r.PickStr("200 OK", "301 Moved", "302 Found", "307 Temporary Redirect", "100 Continue", "101 Switching Protocols", "204 No Content", "304 Not Modified", "999 X", "000", "200")
 	var sb strings.Builder
 	fmt.Fprintf(&sb, "HTTP/1.%d %s\r\n", r.Intn(2), st)
@@ -378,7 +398,12 @@ func driveStream(e *core.Env, r *core.RNG, srv netio.StreamServer, input []byte,
 			pp.SetDeadline(time.Now().Add(time.Second))
 			buf := make([]byte, 8192)
 			pp.Read(buf)
-			pp.Write(reply)
+			for k, part := range bytes.Split(reply, []byte(splitMark)) {
+				if k > 0 {
+					time.Sleep(3 * time.Millisecond) // the exchange so far is over before the next part arrives
+				}
+				pp.Write(part)
+			}
 			pp.CloseWrite()
 			for k := 0; k < 8; k++ {
 				if _, err := pp.Read(buf); err != nil {
@@ -399,7 +424,7 @@ func driveStream(e *core.Env, r *core.RNG, srv netio.StreamServer, input []byte,
 		// whatever connection types the handshake handed back
 		re, te := netsim.Pair(nil, nil, false)
 		go func() {
-			te.Write(reply)
+			te.Write(bytes.ReplaceAll(reply, []byte(splitMark), nil))
 			te.CloseWrite()
 			io.Copy(io.Discard, te)
 			te.Close()
@@ -409,7 +434,7 @@ func driveStream(e *core.Env, r *core.RNG, srv netio.StreamServer, input []byte,
 		re.Close()
 		return "proceeded-relayed"
 	}
-	pc.Write(reply)
+	pc.Write(bytes.ReplaceAll(reply, []byte(splitMark), nil))
 	pc.Close()
 	return "proceeded"
 }
